@@ -20,6 +20,10 @@ structure State where
   pipeFO : Bool := false          -- failover middleware with one fallback server
   answered : List Nat := []       -- names a fallback answer is cached for
   loops : List (Nat × List String) := []
+  n3memo : List String := []      -- the request tree's NSEC3 hash memo (once a context carrying one was used)
+
+/-- owner names of the fixture ring of `n3 nx` / `n3 nodata` (harness/c12/n3ops.go). -/
+def n3Ring : List String := ["n3.test.", "host.n3.test.", "other.n3.test."]
 
 def parseCsv (s : String) : Option (KTab Nat) := do
   let l ← (s.splitOn ",").mapM String.toNat?
@@ -58,7 +62,7 @@ def step (st : State) (w : List String) : State × String :=
     match parseCsv raw, parseCsv dflt with
     | some r, some d =>
       match policyFromConfig mode r d with
-      | some p => ({ st with valid := true, pol := p, sh := {}, handles := 0 }, polStr p)
+      | some p => ({ st with valid := true, pol := p, sh := {}, handles := 0, n3memo := [] }, polStr p)
       | none => ({ st with valid := false }, "invalid")
     | _, _ => (st, "bad-op")
   | ["ledger", "debit", _tid, k] =>
@@ -252,6 +256,21 @@ def step (st : State) (w : List String) : State × String :=
       let lb := labelCount name
       if minimized ml lb lvl nm then (st, s!"t {lvl + 1}") else (st, s!"f {lb}")
     | _, _, _ => (st, "bad-op")
+  | ["n3", kind, base, labels, memo] =>
+    if !st.valid then (st, "no-ledger") else
+    match parseBool memo, (if kind = "nx" then some false else if kind = "nodata" then some true else none) with
+    | some useMemo, some nodata =>
+      let b := if base = "host" then "host.n3.test." else "n3.test."
+      let ls := if labels = "-" then [] else labels.splitOn "."
+      let (sh, memo', out) := n3Verify st.pol 64 nodata n3Ring b ls st.sh
+        (if useMemo then some st.n3memo else none)
+      let st' := { st with sh := sh, n3memo := if useMemo then memo'.getD st.n3memo else st.n3memo }
+      let r := match out with
+        | .secure => "secure"
+        | .bogus => "bogus"
+        | .work k lim => resStr (.limit k lim)
+      (st', s!"res={r} n3={sh.ctr.a6}")
+    | _, _ => (st, "bad-op")
   | "ds" :: "new" :: _ => (st, "unmodelled")
   | ["ds", "verify", mode, cand, dsc, anch, dpos, kpos, d, k] =>
     match parseMode mode, cand.toNat?, dsc.toNat?, parseBool anch, d.toNat?, k.toNat? with
